@@ -10,6 +10,7 @@ import plan_gen  # noqa: E402
 
 # generator / model-checking topologies: id, dc, rack, has ssd
 TOPO_MC = [("a1", "d1", "r1", False), ("a2", "d1", "r1", False), ("a3", "d1", "r2", False), ("b1", "d2", "r3", False)]
+TOPO_MC3 = [("a1", "d1", "r1", False), ("a2", "d1", "r1", False), ("a3", "d1", "r2", False)]
 TOPO_GEN = [("a1", "d1", "r1", False), ("a2", "d1", "r1", False), ("a3", "d1", "r2", False), ("a4", "d1", "r2", False),
             ("b1", "d2", "r3", False), ("b2", "d2", "r3", False), ("b3", "d2", "r4", False)]
 TOPO_GEN2 = [("a1", "d1", "r1", False), ("a2", "d1", "r1", False), ("a3", "d1", "r1", False),
@@ -44,10 +45,18 @@ def run(ctx):
     # 1. model checking: every plan of allowed shard moves keeps every shard exactly as often as in the
     #    snapshot, never overfills a server and never grows a rack beyond max(initial, even-spread target).
     #    Scaled-down code (4 shards, 2 per volume slot) so that all layouts on 4 servers can be enumerated.
-    mc = ctx.instance("MC_Plan16", "PlanCheck",
-                      "SPECIFICATION Spec\nINVARIANT EcPreserved\nINVARIANT EcSlotInv\nINVARIANT EcRackBound\nCHECK_DEADLOCK FALSE",
-                      consts(TOPO_MC, maxec=1, maxdup=1, maxsteps=3 if ctx.thorough else 2, slacks=(0, 1), total=4, data=2))
-    ctx.model_check(mc, workers=4, timeout=1500, label="all plans of allowed shard moves, 4-shard code, all layouts on 4 servers")
+    inv = ("SPECIFICATION Spec\nINVARIANT EcPreserved\nINVARIANT EcSlotInv\nINVARIANT EcRackBound\n"
+           "VIEW MCView\nCHECK_DEADLOCK FALSE")
+    if ctx.thorough:
+        runs = [("MC_Plan16", TOPO_MC, dict(maxec=1, maxdup=1, maxsteps=2, slacks=(0, 1), total=4, data=2),
+                 "all plans of 2 allowed shard moves, 4-shard code, all layouts (+1 duplicate) on 4 servers / 3 racks")]
+    else:
+        runs = [("MC_Plan16", TOPO_MC3, dict(maxec=1, maxdup=1, maxsteps=2, slacks=(0,), total=4, data=2),
+                 "all plans of 2 allowed shard moves, 4-shard code, all layouts (+1 duplicate) on 3 servers / 2 racks, tight"),
+                ("MC_Plan16b", TOPO_MC3, dict(maxec=1, maxdup=0, maxsteps=2, slacks=(0, 1), total=4, data=2),
+                 "same without duplicate, slack 0/1")]
+    for name, topo, kw, label in runs:
+        ctx.model_check(ctx.instance(name, "PlanCheck", inv, consts(topo, **kw)), workers=4, timeout=1500, label=label)
 
     # 2. generators
     rng = random.Random(ctx.seed)
